@@ -442,6 +442,11 @@ def gen_callbacks():
     wt = fn_body(resp_impl, "write_to")
     body_flushed = bool(re.search(r"write_all\s*\(\s*body\s*\)", wb)) and bool(re.search(r"flush\s*\(\s*\)[^;]*$", wb.strip().rstrip("}").strip()))
     head_flushed = bool(re.search(r"flush\s*\(\s*\)[^;]*$", wt.strip().rstrip("}").strip()))
+    # Content-Length must be the length of the very byte slice that is written as the body
+    raw = open(os.path.join(REPO, "src/common/h11c.rs")).read()
+    pairs = re.findall(r'with_header\(\s*"Content-Length"\s*,\s*(.*?)\)\s*\.write_with_body\(\s*[^,]*,\s*(.*?)\)\s*\.await', raw, re.S)
+    norm = lambda x: re.sub(r"\s+", "", x)
+    cl_is_body_len = len(pairs) == 2 and all(norm(a) == norm(b) + ".len()" for a, b in pairs)
     B = lambda b: "true" if b else "false"
     body = "(* GENERATED by gen/translate.py from src/main.rs, src/common/h11c.rs, src/listeners/socks.rs, src/copy.rs, src/common/http.rs.  Do not edit. *)\n"
     body += "From Coq Require Import NArith.\n"
@@ -457,6 +462,7 @@ def gen_callbacks():
     body += "Definition copy_bidi_takes_streams_first : bool := %s.\n" % B(takes_first)
     body += "Definition http_body_written_and_flushed : bool := %s.\n" % B(body_flushed)
     body += "Definition http_head_flushed : bool := %s.\n" % B(head_flushed)
+    body += "Definition http_content_length_is_body_len : bool := %s.\n" % B(cl_is_body_len)
     return body
 
 
